@@ -107,3 +107,22 @@ Theorem C05_update_checker_sound :
   /\ Forall (fun ov => 0 <= fst ov /\ nth (Z.to_nat (fst ov)) storage (-1) = snd ov) (scatter bl (update_dirs bl bases)).
 Proof. exact update_okb_sound. Qed.
 Print Assumptions C05_update_checker_sound.
+
+(* second clause of the property - "optimising a tensor under a given blocking is the same computation as optimising its
+   blocks as separate parameters": in the structural model of step() (Masks.v) two layouts whose histories present the same
+   per-block gradients give the same block values, block states and step counter, for ANY per-block computation - in particular
+   for Optimizer.block_step (OptimizerMasks.opt_bstep), the model C01 ties to the implementation *)
+From Coq Require Import ZArith.
+From Shampoo Require Import Masks MasksProofs OptimizerMasks.
+Theorem C05_blocked_eq_presplit :
+  forall (bstate grad value : Type) (bstep : Z -> bstate -> value -> grad -> bstate * value)
+         (lay1 lay2 : layout) vals sts (h1 h2 : list (pgrads grad)),
+  wf_layout lay1 -> wf_layout lay2 -> n_local lay1 = n_local lay2 ->
+  length vals = n_local lay1 -> length sts = n_local lay1 ->
+  wf_history grad lay1 h1 -> wf_history grad lay2 h2 ->
+  map (local_grads lay1) h1 = map (local_grads lay2) h2 ->
+  exists s1 s2, group_run bstep lay1 (init_state lay1 vals sts) h1 = Ok s1
+             /\ group_run bstep lay2 (init_state lay2 vals sts) h2 = Ok s2
+             /\ observable s1 = observable s2.
+Proof. exact blocked_eq_presplit. Qed.
+Print Assumptions C05_blocked_eq_presplit.
